@@ -26,4 +26,8 @@ CHECKS['C04'] = {'text': 'Every public Vector/Matrix operation is executed symbo
    '(AB)^T = B^T A^T (bit-identical up to commutativity), (A^T)^T = A (identical symbols), A*I = I*A = A, matrix-vector/vector-matrix/outer/dot/cross products, scalar product/division, Trace, Norm, predicates, Sub_Matrix, Return_/Delete_ Row/Column, brackets, diagonal and block constructors.',
    'note': 'All shapes with dimensions 1..3 (quick) / 1..4 (thorough), block constructor with 2x2 blocks of shapes <=2; entries are exact reals. Two genuine defects found by this check were repaired in /repo (fix: commits 07a8a28, d8c04f6).',
    'technique': EA}
+CHECKS['C05'] = {'text': 'Real Matrix::Determinant (cofactor recursion through Sub_Matrix/Delete_Row/Delete_Column) is executed on symbolic entries and proved equal to the Leibniz polynomial (n<=4 quick, 5 thorough), with transpose invariance, row-swap sign, triangular and multiplicative corollaries through the real code (n<=3); '
+   'Invertible <=> det != 0; on every returning path of the real Gauss-Jordan Inverse (all pivot-order paths), X*M = I entrywise (n<=3) and M*X = I (n<=2 quick, n=3 thorough) as rational identities, every divisor non-zero, and every exit path implies det = 0 (totality: no invertible matrix is rejected); non-square input exits after a diagnostic.',
+   'note': 'Exact real arithmetic: the kappa*n*eps accuracy clause is not decided. Identity obligations use the minimal sound hypotheses (executed divisors non-zero), z3 nlsat. The totality obligation found a genuine defect (no pivoting), repaired in /repo by a fix: commit.',
+   'technique': EA}
 NOT_APPLICABLE = {}
